@@ -154,4 +154,55 @@ pub fn run(out: &mut Out, tier: &str, seed: u64) {
         }
     }
     out.notes.insert("entry_points".into(), json!(ents.iter().map(|e| e.name).collect::<Vec<_>>()));
+    // ---- when the operating system's generator fails (getrandom made to return EIO by a seccomp filter, in a child process):
+    // no randomised operation may hand back a value as if nothing had happened -- it must not return at all (the crate panics)
+    {
+        use std::io::{Read, Write};
+        let mut fds = [0i32; 2]; unsafe { libc::pipe(fds.as_mut_ptr()); }
+        let pid = unsafe { libc::fork() };
+        if pid == 0 {
+            unsafe { libc::close(fds[0]); libc::alarm(60); }
+            let mut w = unsafe { <std::fs::File as std::os::unix::io::FromRawFd>::from_raw_fd(fds[1]) };
+            #[repr(C)] struct Filt { code: u16, jt: u8, jf: u8, k: u32 }
+            #[repr(C)] struct Prog { len: u16, filter: *const Filt }
+            let nr = libc::SYS_getrandom as u32;
+            let filt = [Filt { code: 0x20, jt: 0, jf: 0, k: 0 },                       // A = seccomp_data.nr
+                        Filt { code: 0x15, jt: 0, jf: 1, k: nr },                       // if A == getrandom
+                        Filt { code: 0x06, jt: 0, jf: 0, k: 0x0005_0000 | (libc::EIO as u32) },   //   return ERRNO(EIO)
+                        Filt { code: 0x06, jt: 0, jf: 0, k: 0x7fff_0000 }];             // else ALLOW
+            let prog = Prog { len: 4, filter: filt.as_ptr() };
+            let ok = unsafe { libc::prctl(libc::PR_SET_NO_NEW_PRIVS, 1, 0, 0, 0) == 0 && libc::prctl(libc::PR_SET_SECCOMP, 2 /* SECCOMP_MODE_FILTER */, &prog as *const Prog) == 0 };
+            if !ok { let _ = w.write_all(b"nofilter\n"); unsafe { libc::_exit(0); } }
+            // make sure the filter bites
+            let mut probe = [0u8; 8];
+            let pr = unsafe { libc::syscall(libc::SYS_getrandom, probe.as_mut_ptr(), 8usize, 0u32) };
+            if pr >= 0 { let _ = w.write_all(b"nofilter\n"); unsafe { libc::_exit(0); } }
+            dryoc::rng::verif_set_rng(None);
+            std::panic::set_hook(Box::new(|_| {}));
+            let calls: Vec<(&str, Box<dyn Fn() -> Vec<u8>>)> = vec![
+                ("randombytes_buf(32)", Box::new(|| dryoc::rng::randombytes_buf(32))),
+                ("copy_randombytes(24)", Box::new(|| { let mut x = vec![0u8; 24]; dryoc::rng::copy_randombytes(&mut x); x })),
+                ("StackByteArray<32>::gen", Box::new(|| StackByteArray::<32>::gen().to_vec())),
+                ("crypto_secretbox_keygen", Box::new(|| dryoc::classic::crypto_secretbox::crypto_secretbox_keygen().to_vec())),
+                ("crypto_box_keypair", Box::new(|| { let (pk, sk) = dryoc::classic::crypto_box::crypto_box_keypair(); [pk.to_vec(), sk.to_vec()].concat() })),
+                ("crypto_kdf_keygen", Box::new(|| dryoc::classic::crypto_kdf::crypto_kdf_keygen().to_vec())),
+            ];
+            for (name, f) in calls.iter() {
+                let r = std::panic::catch_unwind(std::panic::AssertUnwindSafe(|| f()));
+                let line = match r { Err(_) => format!("{}|panic\n", name), Ok(v) => format!("{}|returned|{}\n", name, hx(&v)) };
+                let _ = w.write_all(line.as_bytes());
+            }
+            let _ = w.flush(); unsafe { libc::_exit(0); }
+        }
+        unsafe { libc::close(fds[1]); }
+        let mut r = unsafe { <std::fs::File as std::os::unix::io::FromRawFd>::from_raw_fd(fds[0]) };
+        let mut t = String::new(); let _ = r.read_to_string(&mut t);
+        let mut st = 0; unsafe { libc::waitpid(pid, &mut st, 0); }
+        if t.starts_with("nofilter") || t.is_empty() { out.notes.insert("os_generator_failure".into(), json!("not exercised: the seccomp filter could not be installed here")); }
+        else {
+            out.notes.insert("os_generator_failure".into(), json!("getrandom -> EIO under a seccomp filter"));
+            for l in t.lines() { let f: Vec<&str> = l.split('|').collect(); out.search_evaluations += 1;
+                if f.len() >= 3 && f[1] == "returned" { out.hit("rng.returns-a-value-although-the-os-generator-failed", format!("{} returned {} while getrandom fails with EIO", f[0], f[2]), json!({"op":"rng.os-failure","entry":f[0],"value":f[2]})); } }
+        }
+    }
 }
